@@ -16,13 +16,18 @@ def quat_cases(res, cfgs, prop=None):
 def run(res, only=None):
     cfgs = [c for c in CFGS if not only or c in only]
     quat_cases(res, cfgs)
+    # code -> spec on arbitrary unit quaternions: Hamilton product and rotation recorded per build, judged by TLC (Trace_Poly.tla)
+    core.record_and_validate(res, "poly", [c for c in cfgs if c != "sse2-rel"], draws=12 if res.tier == "quick" else 400, module="Trace_Poly",
+                             chunks=1 if res.tier == "quick" else 8, expect_kinds=("poly",), ops=["quat_mul", "quat_rot"])
     res.exhaustive = True
     res.rule = ("all pairs of quaternions with integer components in -1..1 (quick; -2..2 with a 1/4 stride of the right factor in thorough): "
                 "Hamilton product (every spelling incl. *= and Product), conjugate, +, -, neg, scalar *, /, dot, length_squared -- exact integers; "
                 "all 24 Hurwitz unit quaternions x lattice vectors: q*v on Vec3 and Vec3A (also with a poisoned hidden lane), (-q)*v, "
-                "q^-1(qv) = v, (pq)v = p(qv), Mat3/Mat4::from_quat, normalize, length -- exact. non-trivial = more than two non-zero components.")
-    res.assumptions = ["'a few eps*|v|' for arbitrary unit quaternions is not decided here (exact lattice only); see C05/C09 for the sqrt(2) lattice"]
+                "q^-1(qv) = v, (pq)v = p(qv), Mat3/Mat4::from_quat, normalize, length -- exact. non-trivial = more than two non-zero components.  "
+                "Code -> spec: q*p (both spellings) and q*v (Vec3, Vec3A) for random unit Quat/DQuat and random vectors, recorded per build; TLC expands "
+                "the Hamilton product / the sandwich q v q* into monomials and accepts iff |got - exact| <= K u sum|monomials| (K = 7 / 14).")
+    res.assumptions = ["the rotation bound is relative to the sum of the magnitudes of the monomials of q v q* (a few eps*|q|^2*|v|)"]
 
 
 def replay(res, path, only=None):
-    return core.generic_replay(res, path, "lin")
+    return core.replay_dispatch(res, path, "lin")
